@@ -463,6 +463,9 @@ fn run_property(prop: &str, ctx: &mut Ctx) {
             #[cfg(feature = "full")]
             ctx.strings("C11.find_words.unicode", "lossless ...; boundaries = UAX#14 opportunities of the stripped line minus those after '-'/SHY, none inside a sequence",
                 A_WORDS, l(4, 5), vec![0], vec![""], props_words::c11_unicode);
+            #[cfg(feature = "full")]
+            ctx.strings("A13.linebreaks.shape", "unicode_linebreak::linebreaks(s): strictly increasing char boundaries in 1..=len (the shape unit U20 assumes)",
+                A_WORDS, l(4, 5), vec![0], vec![""], props_words::a13_linebreaks_shape);
         }
         "C12" => {
             ctx.strings("C12.split_words", "pieces concatenate; cut exactly at the split points; hyphen penalty exactly when needed; whitespace/penalty on the last piece",
@@ -541,6 +544,8 @@ fn replay(path: &str) -> i32 {
             "C11.find_words.ascii" => props_words::c11_ascii(&StrCase::from_json(case)),
             #[cfg(feature = "full")]
             "C11.find_words.unicode" => props_words::c11_unicode(&StrCase::from_json(case)),
+            #[cfg(feature = "full")]
+            "A13.linebreaks.shape" => props_words::a13_linebreaks_shape(&StrCase::from_json(case)),
             "C12.split_words" => props_words::c12_split(&StrCase::from_json(case)),
             "C12.break_apart" => props_words::c12_break(&StrCase::from_json(case)),
             "C13.wrap.ansi_transparent" => props_wrap::c13_ansi(&TextCase::from_json(case)),
